@@ -539,6 +539,12 @@ def _eval_call (repo, module, e, env, cls):
         if fn.id == 'any' and any(v for v in known): return True
         raise _Unknown()
       return all(vals) if fn.id == 'all' else any(vals)
+    if fn.id in ('getattr', 'hasattr') and len(args) in (2, 3) and isinstance(args[0], Rec) and isinstance(args[1], str):
+      # attribute of a sample record by computed name
+      if fn.id == 'hasattr': return args[1] in args[0]
+      if args[1] in args[0]: return args[0][args[1]]
+      if len(args) == 3: return args[2]
+      raise _Unknown()
     if fn.id == 'next' and len(args) == 2:
       try:
         vals = list(args[0])
